@@ -682,3 +682,68 @@ mut("C04", "unmapped_entities_accepted", "events with unmappable entities are de
     (SE, "        if ctx.invalid_entities.is_empty() {\n            Ok(event)\n        } else {\n            let msg = format!(\n                \"unable to map entities `{:?}` from the server", "        if ctx.invalid_entities.is_empty() || ctx.invalid_entities.len() < 8 {\n            ctx.invalid_entities.clear();\n            Ok(event)\n        } else {\n            let msg = format!(\n                \"unable to map entities `{:?}` from the server"))
 mut("C04", "trigger_targets_not_mapped", "server trigger targets are used as server entities on the client", ["targets-mapped"],
     ("src/shared/event/server_trigger.rs", "        targets.push(ctx.get_mapped(entity));", "        targets.push(entity);"))
+
+# ------------------------------------------------------------------ C05
+CE = "src/shared/event/client_event.rs"
+mut("C05", "independent_except_sends_to_excepted", "independent BroadcastExcept also sends to the excepted client", ["send_independent_event/BroadcastExcept/guards"],
+    (SE, """                for client_entity in clients {
+                    if client_entity != client {
+                        server.send(client_entity, self.channel_id, message.clone());
+                    }
+                }""", """                for client_entity in clients {
+                    let _ = client;
+                    server.send(client_entity, self.channel_id, message.clone());
+                }"""))
+mut("C05", "buffered_except_skips_wrong_client", "buffered BroadcastExcept compares against SERVER instead of the excepted client", ["send_all/BroadcastExcept/guards"],
+    (SE, "                            if client_entity == client {\n                                continue;\n                            }", "                            if client_entity == SERVER {\n                                let _ = client;\n                                continue;\n                            }"))
+mut("C05", "local_direct_always_delivered", "Direct events for remote clients are also observed locally", ["resend_locally/Direct/guards"],
+    (SE, """                SendMode::Direct(entity) => {
+                    if entity == SERVER {
+                        events.send(event);
+                    }
+                }""", """                SendMode::Direct(entity) => {
+                    let _ = entity;
+                    events.send(event);
+                }"""))
+mut("C05", "local_except_inverted", "BroadcastExcept(SERVER) is delivered locally", ["resend_locally/BroadcastExcept/guards"],
+    (SE, "                    if entity != SERVER {\n                        events.send(event);\n                    }", "                    if entity == SERVER {\n                        events.send(event);\n                    }"))
+mut("C05", "direct_to_server_sent_remotely", "Direct(SERVER) is put on the wire", ["send_independent_event/Direct/guards"],
+    (SE, "                if client != SERVER {\n                    server.send(client, self.channel_id, message.clone());\n                }", "                server.send(client, self.channel_id, message.clone());"))
+mut("C05", "late_joiner_not_excluded_for_direct", "Direct events reach clients that connected after buffering", ["send_all/Direct/excluded-consulted"],
+    (SE, "if client != SERVER && !set.excluded.contains(&client) {", "if client != SERVER {"))
+mut("C05", "new_client_not_excluded", "connecting clients are not excluded from buffered events", ["handle_connects/excludes-new-client"],
+    ("src/server.rs", "    buffered_events.exclude_client(trigger.target());\n", "    let _ = &mut buffered_events;\n"))
+mut("C05", "broadcast_filter_keeps_excluded", "the broadcast filter keeps exactly the excluded clients", ["keeps-non-excluded"],
+    (SE, """                    SendMode::Broadcast => {
+                        for (client_entity, ticks) in
+                            clients.iter().filter(|(e, _)| !set.excluded.contains(e))""", """                    SendMode::Broadcast => {
+                        for (client_entity, ticks) in
+                            clients.iter().filter(|(e, _)| set.excluded.contains(e))"""))
+mut("C05", "sender_identity_is_server", "remote client events are attributed to SERVER", ["sender-is-transport-tag"],
+    (CE, "                    client_events.send(FromClient { client, event });", "                    client_events.send(FromClient { client: if client == Entity::PLACEHOLDER { client } else { SERVER }, event });"))
+mut("C05", "local_resend_wrong_identity", "locally re-emitted events carry a placeholder identity different from SERVER", ["resend_locally/sender-is-SERVER"],
+    (CE, "                client: SERVER,\n                event,", "                client: Entity::from_raw(u32::MAX - 1),\n                event,"))
+mut("C05", "client_fresh_cursor", "client reads its events through a fresh cursor every frame (events are re-sent while buffered)", ["persistent-cursor"],
+    (CE, "        let events = unsafe { events.deref() };\n        for event in reader.read(events) {", "        let events: &Events<E> = unsafe { events.deref() };\n        let _ = reader;\n        for event in events.get_cursor().read(events) {"))
+mut("C05", "failed_serialization_still_sent", "events that failed to map are sent anyway", ["not-sent-when-serialize-failed"],
+    (CE, """                error!(
+                    "ignoring event `{}` that failed to serialize: {e}",
+                    any::type_name::<E>()
+                );
+                continue;""", """                error!(
+                    "ignoring event `{}` that failed to serialize: {e}",
+                    any::type_name::<E>()
+                );"""))
+mut("C05", "unmapped_client_event_ok", "client events with unknown entities are serialised successfully", ["ClientEvent::serialize/ok-only-when-all-mapped"],
+    (CE, """        if ctx.invalid_entities.is_empty() {
+            Ok(())
+        } else {""", """        if ctx.invalid_entities.is_empty() || ctx.invalid_entities.len() == 1 {
+            ctx.invalid_entities.clear();
+            Ok(())
+        } else {"""))
+mut("C05", "client_trigger_targets_unmapped", "client trigger targets are sent as client entities", ["trigger_serialize/targets-mapped"],
+    ("src/shared/event/client_trigger.rs", "        let entity = ctx.get_mapped(entity);\n        entity_serde::serialize_entity(message, entity)?;", "        entity_serde::serialize_entity(message, entity)?;"))
+mut("C05", "triggers_not_drained", "client triggers are read without draining (fire again next frame)", ["trigger_typed/drains"],
+    ("src/shared/event/client_trigger.rs", "        for FromClient { client, event } in client_events.drain() {", "        for FromClient { client, event } in client_events.update_drain() {"))
+mut("C05", "all_events_unordered", "event channels ignore the requested channel kind", ["channel-from-registration"],
+    (CE, "            .create_client_channel(channel);", "            .create_client_channel(if cfg!(debug_assertions) { Channel::Unordered } else { channel });"))
